@@ -29,7 +29,8 @@ from pyvc import api  # noqa: E402  (pure python, no z3 needed)
 
 
 def load_sidecars():
-    api.REG = {"contracts": {}, "classes": {}, "invariants": {}, "lemmas": {}, "specs": {}, "ghosts": {}, "stmts": {}}
+    api.REG = {"contracts": {}, "classes": {}, "invariants": {}, "lemmas": {}, "specs": {}, "ghosts": {}, "stmts": {},
+               "disk_schema": {}, "ghost_functions": {}}
     for p in sorted(Path(os.environ.get("PYVC_CONTRACTS") or (VERIF / "contracts")).glob("*.py")):
         spec = importlib.util.spec_from_file_location("contracts_" + p.stem, p)
         mod = importlib.util.module_from_spec(spec)
